@@ -10,8 +10,8 @@ use serde_json::json;
 
 pub fn def() -> PropDef {
     let mut parts = vec![
-        Part { name: "digest", cfg_len: 0, tape_max: 160, quick: 60_000, thorough: 6_000_000, max_shrink_iters: 1000, run: run_digest },
-        Part { name: "roundtrip", cfg_len: 0, tape_max: 160, quick: 8_000, thorough: 400_000, max_shrink_iters: 500, run: run_roundtrip },
+        Part { name: "digest", cfg_len: 0, tape_max: 160, quick: 600_000, thorough: 30_000_000, max_shrink_iters: 1000, run: run_digest },
+        Part { name: "roundtrip", cfg_len: 0, tape_max: 160, quick: 30_000, thorough: 1_000_000, max_shrink_iters: 500, run: run_roundtrip },
     ];
     parts.push(crate::props::solo_props::c20_part());
     PropDef {
